@@ -693,3 +693,92 @@ Proof. intros H. rewrite render_go_raw by exact H. apply path_text_roundtrip. Qe
 (** ... and not otherwise: below an empty member name the text names another place *)
 Lemma go_path_text_empty_refuted : exists ks, parse_path (render_go ks) <> Some ks.
 Proof. exists [EmptyString; "x"%string]. vm_compute. discriminate. Qed.
+
+(** ** equal documents need no operation *)
+Lemma jeqb_refl_n n : forall x, size x <= n -> wfb x = true -> jeqb x x = true.
+Proof.
+  induction n as [|n IH]; intros x Hs Hw; [pose proof (size_pos x); lia|].
+  destruct x as [|b|z|s|l|m]; cbn [jeqb]; auto.
+  - now destruct b.
+  - apply Z.eqb_refl.
+  - apply String.eqb_refl.
+  - assert (H : forall y, In y l -> jeqb y y = true).
+    { intros y Hy. apply IH; [apply size_in_arr in Hy; lia|exact (wfb_arr l Hw y Hy)]. }
+    clear Hs Hw. induction l as [|a l IHl]; [reflexivity|]. rewrite H by now left. simpl. apply IHl. intros y Hy. apply H. now right.
+  - destruct (wfb_obj _ Hw) as [Hnd Hc].
+    assert (H : forall k v, In (k, v) m -> lookup k m = Some v /\ jeqb v v = true).
+    { intros k v Hi. split; [now apply in_lookup_nodup|]. apply IH; [apply size_in_obj in Hi; lia|now apply (Hc k)]. }
+    apply andb_true_iff. split.
+    + assert (G : forall m0, (forall k v, In (k, v) m0 -> lookup k m = Some v /\ jeqb v v = true) ->
+                  (fix go (m1 : list (string * json)) : bool :=
+                     match m1 with
+                     | [] => true
+                     | kv :: r => match lookup (fst kv) m with Some v' => jeqb (snd kv) v' | None => false end && go r
+                     end) m0 = true).
+      { induction m0 as [|[k v] m0 IHm]; intros H0; [reflexivity|].
+        destruct (H0 k v (or_introl eq_refl)) as [E1 E2]. cbn [fst snd]. rewrite E1, E2. simpl. apply IHm.
+        intros k' v' Hi. apply H0. now right. }
+      apply G. exact H.
+    + apply forallb_forall. intros [k v] Hi. simpl. destruct (H k v Hi) as [-> _]. reflexivity.
+Qed.
+Lemma jeqb_refl x : wfb x = true -> jeqb x x = true.
+Proof. apply (jeqb_refl_n (size x)). lia. Qed.
+
+Lemma flat_map_nil {A B} (f : A -> list B) l : (forall x, In x l -> f x = []) -> flat_map f l = [].
+Proof. induction l as [|a l IH]; intros H; simpl; [reflexivity|]. rewrite H by now left. apply IH. intros x Hx. apply H. now right. Qed.
+
+Lemma matrix_diag s : (forall x, In x s -> jeqb x x = true) -> forall i, i <= List.length s -> cell (matrix s s) i i = 0.
+Proof.
+  intros Hr. induction i as [|i IH]; intros Hi; [apply matrix_col0; lia|].
+  pose proof (matrix_cell s s i i ltac:(lia) ltac:(lia)) as C. unfold CellP in C.
+  rewrite Hr in C by (apply nth_In; lia). destruct C as [[_ C]|[C _]]; [|discriminate]. rewrite C. apply IH. lia.
+Qed.
+
+Lemma backtrace_same hv s : (forall x, In x s -> jeqb x x = true) ->
+  forall fuel i, i <= List.length s -> backtrace hv s s (matrix s s) fuel i i = [].
+Proof.
+  intros Hr. induction fuel as [|f IH]; intros i Hi; [reflexivity|]. cbn [backtrace].
+  destruct i as [|i].
+  - reflexivity.
+  - replace (S i - 1) with i by lia.
+    rewrite (matrix_diag s Hr (S i) Hi), (matrix_diag s Hr i ltac:(lia)).
+    assert (E1 : (cell (matrix s s) i (S i) + 1 =? 0) = false) by (apply Nat.eqb_neq; lia).
+    assert (E2 : (cell (matrix s s) (S i) i + 1 =? 0) = false) by (apply Nat.eqb_neq; lia).
+    rewrite E1, E2. simpl. apply IH. lia.
+Qed.
+
+Lemma in_combine_same {A} (l : list A) x y : In (x, y) (combine l l) -> x = y /\ In x l.
+Proof.
+  induction l as [|a l IH]; simpl; [contradiction|]. intros [[= <- <-]|H]; [split; [reflexivity|now left]|].
+  destruct (IH H) as [E Hx]. split; [exact E|now right].
+Qed.
+
+Lemma handle_same : forall f a, size a <= f -> wfb a = true -> handle f a a = [].
+Proof.
+  induction f as [|f IH]; intros a Hs Hw; [reflexivity|].
+  destruct a as [|b|z|s|l|m]; cbn [handle]; auto.
+  - simpl. now destruct b.
+  - simpl. now rewrite Z.eqb_refl.
+  - simpl. now rewrite String.eqb_refl.
+  - assert (Hr : forall x, In x l -> jeqb x x = true) by (intros x Hx; apply jeqb_refl; exact (wfb_arr l Hw x Hx)).
+    destruct (is_simple l && is_simple l); [apply backtrace_same; [exact Hr|lia]|].
+    rewrite Nat.min_id, Nat.sub_diag. simpl. apply flat_map_nil. intros [i [x y]] Hi.
+    cbn [fst snd]. apply in_combine_r in Hi. apply in_combine_same in Hi as [-> Hx].
+    rewrite IH; [reflexivity|apply size_in_arr in Hx; lia|exact (wfb_arr l Hw y Hx)].
+  - destruct (wfb_obj _ Hw) as [Hnd Hc].
+    assert (E1 : flat_map (fun kv => match lookup (fst kv) m with
+                                     | None => [mkOp OAdd [TK (fst kv)] (snd kv)]
+                                     | Some av => map (pre (TK (fst kv))) (handle f av (snd kv))
+                                     end) m = []).
+    { apply flat_map_nil. intros [k v] Hi. cbn [fst snd]. rewrite (in_lookup_nodup k v m Hnd Hi).
+      rewrite IH; [reflexivity|apply size_in_obj in Hi; lia|exact (Hc k v Hi)]. }
+    assert (E2 : flat_map (fun kv => match lookup (fst kv) m with
+                                     | None => [mkOp ORemove [TK (fst kv)] JNull]
+                                     | Some _ => []
+                                     end) m = []).
+    { apply flat_map_nil. intros [k v] Hi. cbn [fst]. now rewrite (in_lookup_nodup k v m Hnd Hi). }
+    rewrite E1, E2. reflexivity.
+Qed.
+
+Theorem create_patch_same a : wfb a = true -> create_patch a a = [].
+Proof. intros H. apply handle_same; [apply le_n|exact H]. Qed.
